@@ -55,6 +55,7 @@ def run(tier):
         'discard.bit_qubit': Discard(bit @ qubit), 'discard.qubit_bit_bit': Discard(qubit @ bit @ bit),
         'mixedstate.qubit': MixedState(), 'mixedstate.bit': MixedState(bit), 'mixedstate.qubit_bit': MixedState(qubit @ bit),
         'scalar.pure': scalar(a + I * b), 'scalar.mixed': scalar(a, is_mixed=True),
+        'scalar.pure.dagger': scalar(a + I * b).dagger(), 'scalar.mixed.dagger': scalar(a + I * b, is_mixed=True).dagger(),
         'classical.gate': ClassicalGate('f', 1, 1, [a, b, c, d]),
         'classical.gate.dagger': ClassicalGate('f', 1, 2, [a, b, c, d, 0, 1, a * b, 2]).dagger(),
         'classical.Bits(1,0)': Bits(1, 0), 'classical.Copy': Copy(), 'classical.Match': Match(),
@@ -72,6 +73,12 @@ def run(tier):
                        extra=(a, b, c, d), functions=['quantum.cqmap.Functor._ar', 'quantum.cqmap.CQMap.' +
                                                       name.split('.')[0].split('(')[0]],
                        what='the CQ map of %s is the textbook completely positive map, for every parameter value' % name)
+    # the dagger of a scalar is the adjoint of its CQ map: the conjugate weight for a mixed scalar
+    for nm, sc_ in (('mixed', scalar(a + I * b, is_mixed=True)), ('pure', scalar(a + I * b))):
+        suite.identity('scalar.%s.dagger.is_adjoint' % nm, numpy.array(F(sc_.dagger()).array, dtype=object).flatten(),
+                       [sympy.conjugate(e) for e in numpy.array(F(sc_).array, dtype=object).flatten()], extra=(a, b),
+                       functions=['quantum.gates.Scalar.dagger'],
+                       what='CQ(s.dagger()) is the conjugate of CQ(s) for a %s scalar' % nm)
     # doubling of a generic pure box: CQ(u) = conj(u) (x) u for a generic 2x2 array
     u = [[a + I * b, c], [d, a - I * c]]
     from discopy.tensor import Tensor, Dim
